@@ -426,6 +426,7 @@ class BaseProperty(base.BaseObject):
 
         new_value = self._convert_value_input(new_value)
 
+        old_dtype = self._dtype
         if self._dtype is None:
             self._dtype = dtypes.infer_dtype(new_value[0])
 
@@ -440,6 +441,8 @@ class BaseProperty(base.BaseObject):
             if self._dtype in ("date", "time", "datetime"):
                 req_format = dtypes.default_values(self._dtype)
                 msg += " \'%s\'! Format should be \'%s\'." % (self._dtype, req_format)
+            # An inferred dtype must not outlive the values it was inferred from.
+            self._dtype = old_dtype
             raise ValueError(msg)
 
         self._values = [dtypes.get(v, self.dtype) for v in new_value]
